@@ -12,7 +12,7 @@ from props.C05 import ALARM_P, FINITE
 LN2 = 0.69314718056
 
 
-def make_volume(kind, M, args, vol0, x0):
+def make_volume(kind, M, args, vol0, x0, t0=0.0):
     """real volume object, initialised after seeding (draws happen here)."""
     from bioscrape.types import Volume, StochasticTimeThresholdVolume, StateDependentVolume
     if kind == "const":
@@ -21,7 +21,7 @@ def make_volume(kind, M, args, vol0, x0):
         return v
     if kind == "stt":
         v = StochasticTimeThresholdVolume(args["cycle"], args["avg"], args["noise"])
-        v.py_initialize(x0.copy(), M.get_parameter_values(), 0.0, vol0)
+        v.py_initialize(x0.copy(), M.get_parameter_values(), float(t0), vol0)
         return v
     v = StateDependentVolume()
     v.setup(args["avg"], args["noise"], args["growth"], M)
@@ -38,13 +38,13 @@ def volmodel_json(kind, M, args):
     return {"type": "statedep", "avg": f2b(args["avg"]), "noise": f2b(args["noise"]), "growth": dump_term(term)}
 
 
-def corr(ctx, spec, T, seeds, kind, args, vol0, safe=False):
-    ctx.begin_case({"spec": spec, "grid": [float(t) for t in T], "seeds": seeds, "volume": kind, "args": args, "vol0": vol0, "safe": safe})
+def corr(ctx, spec, T, seeds, kind, args, vol0, safe=False, sim="volume", t0=0.0):
+    ctx.begin_case({"spec": spec, "grid": [float(t) for t in T], "seeds": seeds, "volume": kind, "args": args, "vol0": vol0, "safe": safe, "simulator": sim, "t0": t0})
     M = build_model(spec)
     dt = float(T[1] - T[0])
     x0 = np.array(M.get_species_array(), dtype=float)
     vj = volmodel_json(kind, M, args)
-    jobs = [sim_job(M, "volume", T, s, dt, safe=safe, fuel=simcorr.FUEL, spec=spec, vol0=vol0, volmodel=vj) for s in seeds]
+    jobs = [sim_job(M, sim, T, s, dt, safe=safe, fuel=simcorr.FUEL, spec=spec, vol0=vol0, volmodel=vj, t0=t0) for s in seeds]
     ans = driver_batch(jobs)
     if any(a.get("status") == "out-of-fuel" for a in ans):
         ctx.count("discarded_unbounded_network")
@@ -54,24 +54,24 @@ def corr(ctx, spec, T, seeds, kind, args, vol0, safe=False):
                                        "difference": str([a.get("status", a.get("error")) for a in ans])})
         return
     for s, a in zip(seeds, ans):
-        r = simcorr.run_real(M, "volume", T, s, dt, safe=safe, vol0=vol0, volume_factory=lambda M_: make_volume(kind, M_, args, vol0, x0))
+        r = simcorr.run_real(M, sim, T, s, dt, safe=safe, vol0=vol0, volume_factory=lambda M_: make_volume(kind, M_, args, vol0, x0, t0), t0=t0)
         ctx.evaluated()
-        d = simcorr.compare(r, a, "volume")
+        d = simcorr.compare(r, a, sim)
         if d is not None:
             ctx.broke("corr_C11_volume_trajectory_trace_flag_bit_exact", {"spec": spec, "grid": [float(t) for t in T], "seed": s, "volume": kind,
-                                                                          "args": args, "vol0": vol0, "safe": safe, "difference": d})
-        growth_oracle(ctx, spec, T, s, kind, args, vol0, r)
+                                                                          "args": args, "vol0": vol0, "safe": safe, "simulator": sim, "t0": t0, "difference": d})
+        growth_oracle(ctx, spec, T, s, kind, args, vol0, r, t0)
         ctx.nontriv((kind, bool(r["divided"]), len(r["rows"]) < len(T), bool(np.any(np.diff(r["rows"], axis=0) != 0)), s % 4,
                      str(sorted(x["prop"]["type"] for x in spec["reactions"]))))
     ctx.count("volume:" + kind, len(seeds))
     ctx.sample({"spec": spec, "volume": kind, "args": args, "vol0": vol0, "grid_points": len(T)}, cap=4)
 
 
-def growth_oracle(ctx, spec, T, seed, kind, args, vol0, r):
+def growth_oracle(ctx, spec, T, seed, kind, args, vol0, r, t0=0.0):
     """the property on implementation output."""
     dt = float(T[1] - T[0])
     vol, times = r["volume"], r["times"]
-    rep = {"spec": spec, "grid": [float(t) for t in T], "seed": seed, "volume": kind, "args": args, "vol0": vol0}
+    rep = {"spec": spec, "grid": [float(t) for t in T], "seed": seed, "volume": kind, "args": args, "vol0": vol0, "t0": t0}
     if len(vol) != len(r["rows"]) or len(times) != len(vol):
         ctx.violation("volume/shape", "volume trace, time axis and rows have different lengths", dict(rep, lengths=[len(vol), len(times), len(r["rows"])]))
         return
@@ -90,15 +90,15 @@ def growth_oracle(ctx, spec, T, seed, kind, args, vol0, r):
         if np.any(np.diff(vol) < 0):
             ctx.violation("volume/monotone", "the reported volume decreases although the growth rate is positive", dict(rep, volume=vol.tolist()[:10]))
             return
-        lo = vol0 * np.exp(g * (times - dt)) * (1 - 1e-9)
-        hi = vol0 * np.exp(g * times) * (1 + 1e-9)
+        lo = vol0 * np.exp(g * (times - t0 - dt)) * (1 - 1e-9)
+        hi = vol0 * np.exp(g * (times - t0)) * (1 + 1e-9)
         if np.any(vol < lo) or np.any(vol > hi):
             i = int(np.argmax((vol < lo) | (vol > hi)))
-            ctx.violation("volume/growth-law", "reported volume %g at t=%g is not within one time step of V0*exp(g t) = %g" % (vol[i], times[i], vol0 * math.exp(g * times[i])),
+            ctx.violation("volume/growth-law", "reported volume %g at t=%g is not within one time step of V0*exp(g (t-t0)) = %g" % (vol[i], times[i], vol0 * math.exp(g * (times[i] - t0))),
                           dict(rep, row=i))
             return
         if args["noise"] == 0:
-            divT = math.log(args["avg"] / vol0) / g
+            divT = t0 + math.log(args["avg"] / vol0) / g
             if divT <= T[-1] - dt:
                 # the simulator's ticks are the accumulated floats t0 + dt + dt + ...; division is reported at the first tick t
                 # with t - dt < divT <= t, and the rows written by then are the grid times <= that tick (a tick that falls
@@ -117,6 +117,20 @@ def growth_oracle(ctx, spec, T, seed, kind, args, vol0, r):
             elif divT > T[-1] + dt:
                 if r["divided"] or len(times) != len(T):
                     ctx.violation("volume/division", "no division before the horizon, yet the result is truncated or flagged", rep)
+        else:
+            # the time left to division at initialisation, Tl = log(avg/V0)/g, is multiplied by one normal(1, noise) draw and
+            # counted from the time of initialisation: the observed division lies within 7 standard deviations of t0 + Tl
+            Tl = math.log(args["avg"] / vol0) / g
+            lo_t, hi_t = t0 + Tl * (1 - 7 * args["noise"]), t0 + Tl * (1 + 7 * args["noise"])
+            if r["divided"] and len(times) < len(T):
+                if not (float(times[-1]) >= lo_t - 1e-9 and float(times[-1]) - 2 * dt <= hi_t + 1e-9):
+                    ctx.violation("volume/division-noise", "initialised at t0=%g with %g to go (noise %g): the cell divides at t=%g, outside [%g, %g]"
+                                  % (t0, Tl, args["noise"], times[-1], lo_t, hi_t), rep)
+                    return
+            elif not r["divided"] and float(T[-1]) - dt > hi_t + 1e-9:
+                ctx.violation("volume/division-noise", "initialised at t0=%g with %g to go (noise %g): no division by t=%g" % (t0, Tl, args["noise"], T[-1]), rep)
+                return
+            ctx.count("noisy_division_checked")
         ctx.count("growth_checked")
         return
     if kind == "statedep":
@@ -125,6 +139,25 @@ def growth_oracle(ctx, spec, T, seed, kind, args, vol0, r):
             return
         if r["divided"] != (len(times) < len(T)) and not (r["divided"] and len(times) == len(T)):
             ctx.violation("volume/division", "truncated result not flagged as divided", rep)
+
+
+def late_born_cells(ctx, rng):
+    """cells whose volume model is initialised late in a long experiment (daughter cells, continued simulations): the noise
+    of the division time is a fraction of the time *left* to division, whatever the clock reads at initialisation."""
+    spec = {"species": ["A"], "reactions": [{"reactants": [], "products": ["A"], "prop": {"type": "massaction", "k": "k0"}}],
+            "params": {"k0": 1.0}, "ic": {"A": 0}}
+    args = {"cycle": 10.0, "avg": 2.0, "noise": 0.05}
+    for t0 in (0.0, 60.0, 600.0):
+        T = t0 + np.arange(0, 301) * 0.05
+        for j in range(6):
+            seed = rng.randint(1, 2**31)
+            ctx.begin_case({"spec": spec, "grid": [float(t) for t in T], "seed": seed, "volume": "stt", "args": args, "vol0": 1.0, "t0": t0})
+            M = build_model(spec)
+            x0 = np.array(M.get_species_array(), dtype=float)
+            r = simcorr.run_real(M, "volume", T, seed, 0.05, vol0=1.0, volume_factory=lambda M_: make_volume("stt", M_, args, 1.0, x0, t0), t0=t0)
+            ctx.evaluated()
+            growth_oracle(ctx, spec, T, seed, "stt", args, 1.0, r, t0)
+    ctx.count("late_born_cells", 18)
 
 
 def scaled_cme(ctx, spec, V, nruns, seed0):
@@ -230,11 +263,14 @@ def run(ctx):
         elif c in (1, 2):
             cyc = rng.choice([1.0, 3.0, 10.0, 50.0])
             args = {"cycle": cyc, "avg": vol0 * rng.choice([1.2, 2.0, 8.0]), "noise": 0.0 if c == 1 else rng.choice([0.05, 0.2])}
-            corr(ctx, spec, T, seeds, "stt", args, vol0, safe)
+            # half of these cells start their life later than t = 0 (a daughter cell, a continued simulation)
+            t0 = rng.choice([0.0, 0.0, 7.5, 60.0])
+            corr(ctx, spec, t0 + T, seeds, "stt", args, vol0, safe, t0=t0)
         else:
             args = {"avg": vol0 * rng.choice([1.5, 3.0]), "noise": rng.choice([0.0, 0.1]),
-                    "growth": rng.choice(["0.1", "0.05 + 0.01*A", "0.3*B/(1+B)", "k0/10"])}
-            corr(ctx, spec, T, seeds, "statedep", args, vol0, safe)
+                    "growth": rng.choice(["0.1", "0.05 + 0.01*A", "0.3*B/(1+B)", "k0/10", "0.02 + 0.01*t"])}
+            corr(ctx, spec, T, seeds, "statedep", args, vol0, safe, sim="delayvolume" if (i // 4) % 2 else "volume")
+    late_born_cells(ctx, rng)
     nruns = 2500 if ctx.quick() else 150000
     for k, V in enumerate([0.25, 2.0, 4.5]):
         scaled_cme(ctx, FINITE[k % 3 if k < 3 else 0], V, nruns, 7000 * ctx.seed + 11 * k)
@@ -246,7 +282,7 @@ def replay(ctx, obj):
         import common
         scaling_oracle(ctx, rep["spec"], rep["V"], common.SplitMix64(1))
     elif "grid" in rep:
-        corr(ctx, rep["spec"], np.array(rep["grid"]), [rep["seed"]], rep["volume"], rep["args"], rep["vol0"], rep.get("safe", False))
+        corr(ctx, rep["spec"], np.array(rep["grid"]), [rep["seed"]], rep["volume"], rep["args"], rep["vol0"], rep.get("safe", False), sim=rep.get("simulator", "volume"), t0=rep.get("t0", 0.0))
     else:
         scaled_cme(ctx, rep["spec"], rep["V"], rep.get("nruns", 2500), rep.get("seed0", 1))
 
